@@ -343,3 +343,7 @@ mod tests {
         join.abort();
     }
 }
+
+#[cfg(all(test, feature = "pendulum_project_ntpd_rs_verif"))]
+#[path = "../../../../verif/harness/ntpd/daemon_server.rs"]
+mod verif_daemon_server;
